@@ -54,13 +54,17 @@ import (
 //	    connection id on which no uTP stream ever comes up: the transfer goroutine keeps dialling.  during / calls_during =
 //	    free outbound slots and Release calls seen 400 ms after offer() returned, after / calls = at quiescence
 //	permops <in|out> <limit> <ops> | ok s=<got>:<free>,<got>:<free>,..
-//	    any sequence of Get..Permit / Release on the node's real utpController; ops = ','-separated g (Get) or r<i> (Release
+//	    any sequence of Get..Permit / Release / S (P.Utp.Start() once more, as every further sub-network does on the shared
+//	    service) on the node's real utpController; ops = ','-separated g (Get), S, or r<i> (Release
 //	    through the i-th handle ever handed out, again and again if the sequence says so); per step: got (1/0, - for a
 //	    release) and the number of slots obtainable right after the step
 //	laterelease <limit> v<ver> | ok a=<0|1> b=<0|1> during=<f> c=<0|1> after=<f>
 //	    inbound: transfer A completes over uTP and its receive goroutine is parked right after "release permit fast" (a
 //	    blocking log handler on the trace line that follows); OFFER B is accepted (takes the freed slot); A's goroutine is let
 //	    go (its deferred Release runs); then: free inbound slots while B is in progress, a third OFFER C, slots at the end
+//	restart <limit> v<ver> | ok o1=<0|1> o2=<0|1> free=<f> o3=<0|1>
+//	    inbound, limit-1 slots held by the harness: OFFER 1 is accepted (its sender never dials), OFFER 2 is rate limited,
+//	    P.Utp.Start() is called again, free = inbound slots obtainable after it, OFFER 3 must still be rate limited
 //	instress <limit> <n> | ok accepted=<a> free=<f>                n offers of distinct keys at once, then Stop()
 //	stress <limit> <k> <m> | ok peak=<p> free=<f>                  k goroutines x m offers, peak = most slots held at once
 func init() { registry["C16"] = runC16 }
@@ -770,6 +774,8 @@ func c16permopsCase(g *c16gen, dir string, limit int, ops string) string {
 			if ok {
 				got = "1"
 			}
+		} else if o == "S" {
+			A.P.Utp.Start()
 		} else if strings.HasPrefix(o, "r") {
 			if i := c16atoi(o[1:]); i < len(handles) {
 				handles[i].Release()
@@ -798,6 +804,37 @@ func (h *c16blockLog) Handle(_ context.Context, r slog.Record) error {
 }
 func (h *c16blockLog) WithAttrs([]slog.Attr) slog.Handler { return h }
 func (h *c16blockLog) WithGroup(string) slog.Handler      { return h }
+
+func c16restartCase(g *c16gen, limit, ver int) string {
+	A, _ := c16node(g, limit, []byte{0, 1}, 8, true)
+	defer A.Stop()
+	B, _ := c16node(g, 50, c16pv(ver), 4, true)
+	defer B.Stop()
+	B.Ping(A.Self())
+	var held []portalwire.Permit
+	for i := 0; i < limit-1; i++ {
+		if p, ok := A.InboundPermit(); ok {
+			held = append(held, p)
+		}
+	}
+	defer func() {
+		for _, p := range held {
+			p.Release()
+		}
+	}()
+	bit := func(b bool) int {
+		if b {
+			return 1
+		}
+		return 0
+	}
+	o1, _ := c16talkOffer(B, A, ver, append([]byte("c16-restart-1-"), g.bytes(8)...))
+	o2, _ := c16talkOffer(B, A, ver, append([]byte("c16-restart-2-"), g.bytes(8)...))
+	A.P.Utp.Start()
+	free := c16free(A.InboundPermit, limit)
+	o3, _ := c16talkOffer(B, A, ver, append([]byte("c16-restart-3-"), g.bytes(8)...))
+	return fmt.Sprintf("restart %d v%d | ok o1=%d o2=%d free=%d o3=%d", limit, ver, bit(o1), bit(o2), free, bit(o3))
+}
 
 func c16lateReleaseCase(g *c16gen, limit, ver int) string {
 	A, aq := c16node(g, limit, []byte{0, 1}, 8, true)
@@ -1076,6 +1113,8 @@ func c16jobOf0(g *c16gen, f []string) *c16job {
 		return &c16job{run: func() string { return c16inCase(g, f[1], c16atoi(f[2]), f[3], c16atoi(f[4])) }}
 	case "permops":
 		return &c16job{run: func() string { return c16permopsCase(g, f[1], c16atoi(f[2]), f[3]) }}
+	case "restart":
+		return &c16job{run: func() string { return c16restartCase(g, c16atoi(f[1]), c16atoi(strings.TrimPrefix(f[2], "v"))) }}
 	case "laterelease":
 		return &c16job{run: func() string { return c16lateReleaseCase(g, c16atoi(f[1]), c16atoi(strings.TrimPrefix(f[2], "v"))) }}
 	case "ostall":
@@ -1198,6 +1237,8 @@ func runC16(c *Ctx) {
 		add(&quick, fmt.Sprintf("permops %s 1 g,r0,g,r0,g,r1,g", dir))
 		add(&quick, fmt.Sprintf("permops %s 3 g,g,g,g,r1,r1,g,r1,g,r0,r2,r2,g,g", dir))
 		add(&quick, fmt.Sprintf("permops %s 0 g,r0,r0,g", dir))
+		add(&quick, fmt.Sprintf("permops %s 1 g,g,S,g,r0,S,g,g", dir))
+		add(&quick, fmt.Sprintf("permops %s 3 g,g,S,g,g,r1,S,g,g,r0,r2,r3", dir))
 	}
 	nops := 10
 	if thorough {
@@ -1209,7 +1250,9 @@ func runC16(c *Ctx) {
 		ops := make([]string, k)
 		gets := 0
 		for j := range ops {
-			if gets == 0 || r.Intn(5) < 2 {
+			if gets > 0 && r.Intn(8) == 0 {
+				ops[j] = "S"
+			} else if gets == 0 || r.Intn(5) < 2 {
 				ops[j] = "g"
 				gets++
 			} else {
@@ -1218,6 +1261,8 @@ func runC16(c *Ctx) {
 		}
 		add(&quick, fmt.Sprintf("permops %s %d %s", []string{"in", "out"}[r.Intn(2)], L, strings.Join(ops, ",")))
 	}
+	add(&quick, fmt.Sprintf("restart 1 v%d", r.Intn(2)))
+	add(&quick, fmt.Sprintf("restart 3 v%d", r.Intn(2)))
 	add(&slow, fmt.Sprintf("laterelease 1 v%d", r.Intn(2)))
 	add(&slow, fmt.Sprintf("laterelease 3 v%d", r.Intn(2)))
 	n := c.N
